@@ -337,20 +337,28 @@ func writeSegment(ctx context.Context, w http.ResponseWriter, log *slog.Logger, 
 
 // calcStatusCode returns the configured status code for the segment or 0 if none.
 func calcStatusCode(cfg *ResponseConfig, a *asset, segmentPart string, nowMS int) (int, error) {
-	rep, _, err := findRepAndSegmentID(a, segmentPart)
+	// Generated subtitle tracks are no representations of the asset: they follow the reference (video) track
+	repID, segMeta, isTimeSubs, err := timeSubsSegMeta(cfg, a, segmentPart, nowMS)
 	if err != nil {
-		return 0, fmt.Errorf("findRepAndSegmentID: %w", err)
+		return 0, err
 	}
+	if !isTimeSubs {
+		rep, _, err := findRepAndSegmentID(a, segmentPart)
+		if err != nil {
+			return 0, fmt.Errorf("findRepAndSegmentID: %w", err)
+		}
+		repID = rep.ID
 
-	// segMeta is to be used for all look up. For audio it uses reference (video) track
-	segMeta, err := findSegMeta(a, cfg, segmentPart, nowMS)
-	if err != nil {
-		return 0, fmt.Errorf("findSegMeta: %w", err)
+		// segMeta is to be used for all look up. For audio it uses reference (video) track
+		segMeta, err = findSegMeta(a, cfg, segmentPart, nowMS)
+		if err != nil {
+			return 0, fmt.Errorf("findSegMeta: %w", err)
+		}
 	}
 	startTime := int(segMeta.newTime)
 	repTimescale := int(segMeta.timescale)
 	for _, ss := range cfg.SegStatusCodes {
-		if !repInReps(rep.ID, ss.Reps) {
+		if !repInReps(repID, ss.Reps) {
 			continue
 		}
 		// Then move to the reference track and relate to cycles
@@ -382,6 +390,28 @@ func calcStatusCode(cfg *ResponseConfig, a *asset, segmentPart string, nowMS int
 		}
 	}
 	return 0, nil
+}
+
+// timeSubsSegMeta returns the representation ID (timestpp-xx or timewvtt-xx) and the metadata of the
+// reference segment for a generated subtitle media segment. isTimeSubs is false for any other segment.
+func timeSubsSegMeta(cfg *ResponseConfig, a *asset, segmentPart string, nowMS int) (repID string, sm segMeta, isTimeSubs bool, err error) {
+	for _, prefix := range []string{SUBS_STPP_PREFIX, SUBS_WVTT_PREFIX} {
+		lang, seg, ok := timeSubsSegmentParts(prefix, segmentPart)
+		if !ok {
+			continue
+		}
+		nrStr, _, _ := strings.Cut(seg, ".")
+		nrOrTime, err := strconv.Atoi(nrStr)
+		if err != nil {
+			return "", sm, true, fmt.Errorf("bad seg nr %s: %w", nrStr, errNotFound)
+		}
+		sm, err = a.getRefSegMeta(nrOrTime, cfg, nowMS)
+		if err != nil {
+			return "", sm, true, fmt.Errorf("getRefSegMeta: %w", err)
+		}
+		return prefix + "-" + lang, sm, true, nil
+	}
+	return "", sm, false, nil
 }
 
 func findLastSegNr(cfg *ResponseConfig, a *asset, nowMS int, rep *RepData) int {
